@@ -49,7 +49,7 @@ func smallProfile() *profile.Profile {
 }
 
 var paramPool = map[string][]string{
-	"f": {"foo", "a|b", "x y", "é&=", "main", `main\..+Handler`, "a+b", "x%41", "a;b", "#x", "q?", "a&h=b", "50%", "+"}, "i": {"bar", "b+", "x&f=y"}, "h": {"hid", "h+i"}, "s": {"sh|main|foo", "s+|main|foo"}, "sf": {"foo", "fo+"}, "tf": {"k=v0"}, "ti": {"1kb:"}, "ts": {"k"}, "th": {"b"},
+	"f": {"foo", "a|b", "x y", "operator new ", " const$", "\tkey", " ", "é&=", "main", `main\..+Handler`, "a+b", "x%41", "a;b", "#x", "q?", "a&h=b", "50%", "+"}, "i": {"bar", "b+", "x&f=y"}, "h": {"hid", "h+i"}, "s": {"sh|main|foo", "s+|main|foo"}, "sf": {"foo", "fo+"}, "tf": {"k=v0"}, "ti": {"1kb:"}, "ts": {"k"}, "th": {"b"},
 	"n": {"7", "0", "3"}, "nf": {"0.25", "0", "0.0123456789", "0.333333333333", "1e-09"}, "ef": {"0.5", "0.000123456789"}, "trim": {"f", "t"}, "calltree": {"t"}, "rel": {"t"}, "unit": {"ms", "minimum"}, "compact": {"t"},
 	"mean": {"t"}, "norm": {"t"}, "sort": {"cum", "flat"}, "g": {"lines", "files", "functions"}, "noinlines": {"t"}, "showcolumns": {"t"}, "dropneg": {"t"}, "intel": {"t"}, "prunefrom": {"pf"},
 	"tagroot": {"k"}, "tagleaf": {"bytes"},
@@ -661,6 +661,35 @@ func runKill(c *harness.Ctx) harness.Result {
 		}
 		c.Stat("follow_up_operations", 1)
 		os.RemoveAll(dir)
+		// the same point failing instead of the process dying: an open of the settings file (for
+		// reading the previous contents, or of the new file) that returns an error
+		if (p.name == "openat" || p.name == "open") && strings.Contains(p.line, "settings.json") {
+			errno := []string{"EMFILE", "EACCES", "EIO", "ENFILE"}[(p.ord+c.Index)%4]
+			edir := filepath.Join(c.Tmp, fmt.Sprintf("err-%s-%d", p.name, p.ord))
+			os.MkdirAll(edir, 0o755)
+			out, _, _ := runChild(faultSpec{Dir: edir, Old: old, Op: o, LimitAt: -1, Marker: true}, []string{"strace", "-f", "-o", filepath.Join(edir, "trace.txt"), "-e", "trace=" + calls, "-e", fmt.Sprintf("inject=%s:error=%s:when=%d", p.name, errno, p.ord)})
+			var rep struct {
+				Error string `json:"error"`
+			}
+			json.Unmarshal([]byte(strings.TrimSpace(out)), &rep)
+			c.Stat("open_error_points", 1)
+			got := contents(edir)
+			if got != oldC && got != newC {
+				res.Verdict = harness.Violated
+				res.Detail = fmt.Sprintf("with open call #%d (%s) failing with %s during %s of %q the settings file ended up neither old nor new (reported error: %q):\n got: %q\n old: %q\n new: %q", p.ord, p.line, errno, o.Kind, o.Name, rep.Error, got, oldC, newC)
+				return res
+			}
+			if got == oldC && oldC != newC && rep.Error == "" {
+				res.Verdict = harness.Violated
+				res.Detail = fmt.Sprintf("with open call #%d (%s) failing with %s the %s of %q did not take effect but no error was reported", p.ord, p.line, errno, o.Kind, o.Name)
+				return res
+			}
+			if msg := checkFollowUp(edir, got, oldC, newC, fref, fop); msg != "" {
+				res.Verdict, res.Detail = harness.Violated, fmt.Sprintf("after open call #%d (%s) failed with %s during %s of %q, %s", p.ord, p.line, errno, o.Kind, o.Name, msg)
+				return res
+			}
+			os.RemoveAll(edir)
+		}
 	}
 	return res
 }
